@@ -144,3 +144,14 @@ func (s *speller) val(v *ref.V) {
 		s.sb.WriteByte('}')
 	}
 }
+
+// Texts writes a document and a patch (or any two trees) mostly in the
+// encoder's own spelling and one time in four re-spelled: random insignificant
+// whitespace and alternative escapes (in member names, strings and pointer
+// members alike). The parsed values are the same either way.
+func Texts(t *rapid.T, a, b *ref.V, esc bool, label string) (string, string) {
+	if OneIn(t, 4, label+"respell") {
+		return Spell(t, a, label+"a"), Spell(t, b, label+"b")
+	}
+	return a.Text(esc), b.Text(esc)
+}
